@@ -7,7 +7,7 @@ use crate::gen::ModelData;
 use std::collections::BTreeMap;
 use vaporetto::{CharacterBoundary, Model, Predictor, Sentence, SolverType, Trainer};
 
-const CORPORA: [&[&str]; 4] = [
+const CORPORA: [&[&str]; 5] = [
     &["人/名詞/ヒト が/助詞/ガ 行っ/動詞/イッ た/助動詞/タ", "会/名詞/カイ を/助詞/ヲ 行っ/動詞/オコナッ た/助動詞/タ", "二 人/接尾辞/ニン で/助詞/デ 行っ/動詞/イッ た/助動詞/タ",
       "人/名詞/ジン と/助詞/ト 人/名詞/ヒト", "行っ/動詞/イッ て/助詞/テ 行っ/動詞/オコナッ た/助動詞/タ"],
     // absent tags in the middle, different numbers of tags per sentence, a token seen with and without tags
@@ -17,6 +17,9 @@ const CORPORA: [&[&str]; 4] = [
     // the FIRST sentence has fewer tag categories than later ones with the same tokens; the richest comes in the middle
     // ... and one-token sentences (no boundary at all, so no boundary example): their tags count like any others
     &["猫/名詞 が/助詞 鳴く/動詞", "猫/名詞/ネコ が/助詞/ガ 鳴く/動詞/ナク", "猫/動物/ネコ/cat が 鳴く/動詞/ナク/cry", "犬/名詞/イヌ が 鳴く", "鳥/名詞/トリ", "猫/生物", "犬/動物/ケン"],
+    // one token with three candidates decided by its neighbours (sparse solvers leave whole classes of an n-gram at 0)
+    &["この/連体 人/ヒト は/助詞 火星/名詞 人/ジン だ/助動", "あの/連体 人/ヒト が/助詞 来/動詞 た/助動", "地球/名詞 人/ジン は/助詞 二/数 人/ニン だ/助動", "木星/名詞 人/ジン も/助詞 三/数 人/ニン だ/助動",
+      "彼/代名 ら/接尾 は/助詞 五/数 人/ニン だ/助動", "その/連体 人/ヒト を/助詞 見/動詞 た/助動", "この/連体 人/ヒト も/助詞 一/数 人/ニン だ/助動"],
 ];
 const TAG_DICT: &str = "犬/名詞/イヌ 人/代名詞/ヒト z//Z2 y";
 // (char window, char n-gram, type window, type n-gram)
@@ -90,9 +93,13 @@ fn check_inner(corpus: usize, cfg: usize, with_dict: bool) -> Option<String> {
     for s in &sents {
         t.add_example(s);
     }
-    let model = match t.train(0.01, 1.0, SolverType::L2RegularizedL2LossSVC) {
+    // dense and sparse solvers in turn (L1 solvers leave many weights at exactly 0)
+    let solver = [SolverType::L2RegularizedL2LossSVC, SolverType::L1RegularizedL2LossSVC, SolverType::L1RegularizedLogistic][(corpus + cfg) % 3];
+    let model = match t.train(0.01, 1.0, solver) {
         Ok(m) => m,
-        Err(e) => return Some(format!("training fails: {}", e)),
+        // with the dense solver every corpus of this sweep trains (a failure there is reported); a sparse solver may
+        // legitimately end with "all weights are zero" on a tiny corpus: an error is an allowed outcome (C11)
+        Err(e) => return if (corpus + cfg) % 3 == 0 { Some(format!("training fails: {}", e)) } else { None },
     };
     let bytes = match model.to_vec() { Ok(b) => b, Err(e) => return Some(format!("model does not serialise: {}", e)) };
     let md = match ModelData::from_bytes(&bytes) { Some(m) => m, None => return Some("model bytes do not decode".into()) };
